@@ -1,5 +1,5 @@
-(* C20 -- specification vocabulary (definitions only): what "matches", "names a file" and
-   "a pattern whose first relative component holds a wildcard" mean, independently of the algorithm. *)
+(* C20 -- specification vocabulary (definitions only): what "matches" and "names a file"
+   mean, independently of the algorithm. *)
 From Coq Require Import NArith List Bool.
 Require Import PV.Model.Glob.
 Import ListNotations.
@@ -30,11 +30,5 @@ Definition cname (fs : fsys) (s : str) (f : list str) : Prop :=
 (* effective expression / walk root of an item (after the scheme prefix is removed) *)
 Definition eff_expr (e : str) : str := fst (plan (strip_scheme e)).
 Definition walk_root (e : str) : str := snd (plan (strip_scheme e)).
-
-(* a relative item with a separator whose first component has a wildcard after some literal text,
-   e.g. d*/x.txt : the text handed to os.walk is then 'd', not the directory that contains d* *)
-Definition first_comp_wild (e0 : str) : bool :=
-  let p := lit_prefix (with_sep e0) in
-  match p with [] => false | _ :: _ => negb (has_slash p) end.
 
 Definition str_le (a b : str) : Prop := str_leb a b = true.
